@@ -33,6 +33,10 @@ results = {}
 for n in names:
     d = os.path.join(VERIF, "seeded", n)
     meta = json.load(open(os.path.join(d, "meta.json")))
+    if meta.get("neutralised"):
+        print(f"  {n}: neutralised - {meta['neutralised'][:120]}")
+        results[n] = "neutralised by a later fix (not counted)"
+        continue
     st = subprocess.run(["git", "-C", REPO, "status", "--porcelain"], capture_output=True, text=True).stdout.strip()
     if st:
         print("refusing: /repo is dirty:\n" + st)
